@@ -168,6 +168,10 @@ C17(job) ==
                         nd == NodeByName(pr, r.calls[k].node)
                     IN \* a provided value under the awaited name also counts as available (top frame)
                        (r.calls[k].frame = "" /\ \E w \in Names(nd.wait_for) : w \in DOMAIN prov)
+                       \* an interrupt whose answer the caller supplied completes without invoking its handler
+                       \* (resume path): its signals are produced although the call log shows no invocation
+                       \/ (r.calls[k].frame = "" /\ \E w \in Names(nd.wait_for) : \E j \in NodeIdx(pr) :
+                              IsIntr(pr.nodes[j]) /\ w \in Names(pr.nodes[j].outputs) /\ DataOutputs(pr.nodes[j]) \subseteq DOMAIN prov)
                        \/ WaitJustified(pr, r.calls, k) ]
 
 (***************************************************************************)
